@@ -8,7 +8,7 @@
      (cos θ < 0, sin θ > 0: axis from the largest column of the symmetric part, all eight paths); the logarithm is
      θ·axis with a unit axis;
   Explored (smv/props/c03.py, 60-digit reference exponential): the identity band (exact half turns: Props/Half), the
-  SE(3) logarithm on the obtuse branch (general branch: Props/SE3Log), the 2-D logarithm, thresholds, rounding.  The 2-D exponential is in Props/Exp2.
+  SE(3) logarithm at exact half turns (sin θ > 0: Props/SE3Log), the 2-D logarithm, thresholds, rounding.  The 2-D exponential is in Props/Exp2.
 -/
 import SmVerif.Bridge.Exp
 import SmVerif.Spec.ExpLog
@@ -67,7 +67,8 @@ theorem exp_log_SO3_general (hS : P.Sqrt) (hA : Atan2Law P) (m : Mat 3 3 R) (hm 
     (h : Gen.trlog_R_twist P m = .ok L)
     (hc : (m 0 0 + m 1 1 + m 2 2 - 1) / 2 ≥ 0)
     (hs : P.sqrt ((m 2 1 - m 1 2) / 2 * ((m 2 1 - m 1 2) / 2) + (m 0 2 - m 2 0) / 2 * ((m 0 2 - m 2 0) / 2) + (m 1 0 - m 0 1) / 2 * ((m 1 0 - m 0 1) / 2)) > 0) :
-    L = v3 0 0 0 ∨ ∃ (a : Vec 3 R) (θ : R), (∀ i, L i = a i * θ) ∧ a 0 ^ 2 + a 1 ^ 2 + a 2 ^ 2 = 1 ∧
+    L = v3 0 0 0 ∨ ∃ (a : Vec 3 R) (θ : R), θ = P.atan2 (P.sqrt ((m 2 1 - m 1 2) / 2 * ((m 2 1 - m 1 2) / 2) + (m 0 2 - m 2 0) / 2 * ((m 0 2 - m 2 0) / 2) + (m 1 0 - m 0 1) / 2 * ((m 1 0 - m 0 1) / 2))) ((m 0 0 + m 1 1 + m 2 2 - 1) / 2) ∧
+        (∀ i, L i = a i * θ) ∧ a 0 ^ 2 + a 1 ^ 2 + a 2 ^ 2 = 1 ∧
         rodM a (P.cos θ) (P.sin θ) = m := by
   have hss := hS.mul_self _ (sq3_nonneg' ((m 2 1 - m 1 2) / 2) ((m 0 2 - m 2 0) / 2) ((m 1 0 - m 0 1) / 2))
   have hsc := sin_sq_add_cos_sq hm
@@ -82,7 +83,7 @@ theorem exp_log_SO3_general (hS : P.Sqrt) (hA : Atan2Law P) (m : Mat 3 3 R) (hm 
     have hs0 : s ≠ 0 := ne_of_gt hs
     have hunit : c * c + s * s = 1 := by rw [hss]; linear_combination hsc
     obtain ⟨hcos, hsin⟩ := hA s c hs hunit
-    refine ⟨fun i => v3 ((m 2 1 - m 1 2) / 2) ((m 0 2 - m 2 0) / 2) ((m 1 0 - m 0 1) / 2) i / s, P.atan2 s c, ?_, ?_, ?_⟩
+    refine ⟨fun i => v3 ((m 2 1 - m 1 2) / 2) ((m 0 2 - m 2 0) / 2) ((m 1 0 - m 0 1) / 2) i / s, P.atan2 s c, rfl, ?_, ?_, ?_⟩
     · intro i; fin_cases i <;> simp <;> field_simp
     · simp; field_simp
       first | linear_combination hss | linear_combination -hss | linear_combination 4 * hss | linear_combination (-4) * hss | linear_combination (1/4) * hss | linear_combination (-1/4) * hss
@@ -188,9 +189,9 @@ theorem log_finish {M : Mat 3 3 R} (hm : IsSO3 M) (A0 A1 A2 s c θ : R)
     (hs0 : s ≠ 0) (hc2 : 2 * c = M 0 0 + M 1 1 + M 2 2 - 1) (hunit : s * s + c * c = 1)
     (hs2 : (M 2 1 - M 1 2) / 2 * ((M 2 1 - M 1 2) / 2) + (M 0 2 - M 2 0) / 2 * ((M 0 2 - M 2 0) / 2) + (M 1 0 - M 0 1) / 2 * ((M 1 0 - M 0 1) / 2) = s * s)
     (hcos : P.cos θ = c) (hsin : P.sin θ = s) :
-    ∃ (a : Vec 3 R) (θ' : R), (∀ i, (v3 (A0 * θ) (A1 * θ) (A2 * θ) : Vec 3 R) i = a i * θ') ∧ a 0 ^ 2 + a 1 ^ 2 + a 2 ^ 2 = 1 ∧
+    ∃ (a : Vec 3 R) (θ' : R), θ' = θ ∧ (∀ i, (v3 (A0 * θ) (A1 * θ) (A2 * θ) : Vec 3 R) i = a i * θ') ∧ a 0 ^ 2 + a 1 ^ 2 + a 2 ^ 2 = 1 ∧
         rodM a (P.cos θ') (P.sin θ') = M := by
-  refine ⟨v3 A0 A1 A2, θ, ?_, ?_, ?_⟩
+  refine ⟨v3 A0 A1 A2, θ, rfl, ?_, ?_, ?_⟩
   · intro i; fin_cases i <;> simp
   · simp only [v3_0, v3_1, v3_2]
     apply mul_right_cancel₀ (mul_ne_zero hs0 hs0)
@@ -206,7 +207,7 @@ theorem obtuse_leaf_neg (hS : P.Sqrt) {M : Mat 3 3 R} (hm : IsSO3 M) (b0 b1 b2 u
     (hunit : s * s + c * c = 1) (hs : 0 < s) (hc : c < 0) (hbk : 0 < bk) (hc2 : 2 * c = M 0 0 + M 1 1 + M 2 2 - 1)
     (hdot : dotv = b0 / P.sqrt (bk * (1 - c)) * ((M 2 1 - M 1 2) / 2) + b1 / P.sqrt (bk * (1 - c)) * ((M 0 2 - M 2 0) / 2) + b2 / P.sqrt (bk * (1 - c)) * ((M 1 0 - M 0 1) / 2))
     (hcos : P.cos θ = c) (hsin : P.sin θ = s) (hd : dotv < 0) :
-    ∃ (a : Vec 3 R) (θ' : R), (∀ i, (v3 ((-(b0 / P.sqrt (bk * (1 - c)))) * θ) ((-(b1 / P.sqrt (bk * (1 - c)))) * θ) ((-(b2 / P.sqrt (bk * (1 - c)))) * θ) : Vec 3 R) i = a i * θ') ∧
+    ∃ (a : Vec 3 R) (θ' : R), θ' = θ ∧ (∀ i, (v3 ((-(b0 / P.sqrt (bk * (1 - c)))) * θ) ((-(b1 / P.sqrt (bk * (1 - c)))) * θ) ((-(b2 / P.sqrt (bk * (1 - c)))) * θ) : Vec 3 R) i = a i * θ') ∧
         a 0 ^ 2 + a 1 ^ 2 + a 2 ^ 2 = 1 ∧ rodM a (P.cos θ') (P.sin θ') = M := by
   have hpp : 0 < 1 + c := by nlinarith [mul_pos hs hs]
   have hc1 : 0 < 1 - c := by linarith
@@ -230,7 +231,7 @@ theorem obtuse_leaf_pos (hS : P.Sqrt) {M : Mat 3 3 R} (hm : IsSO3 M) (b0 b1 b2 u
     (hunit : s * s + c * c = 1) (hs : 0 < s) (hc : c < 0) (hbk : 0 < bk) (hc2 : 2 * c = M 0 0 + M 1 1 + M 2 2 - 1)
     (hdot : dotv = b0 / P.sqrt (bk * (1 - c)) * ((M 2 1 - M 1 2) / 2) + b1 / P.sqrt (bk * (1 - c)) * ((M 0 2 - M 2 0) / 2) + b2 / P.sqrt (bk * (1 - c)) * ((M 1 0 - M 0 1) / 2))
     (hcos : P.cos θ = c) (hsin : P.sin θ = s) (hd : ¬ dotv < 0) :
-    ∃ (a : Vec 3 R) (θ' : R), (∀ i, (v3 ((b0 / P.sqrt (bk * (1 - c))) * θ) ((b1 / P.sqrt (bk * (1 - c))) * θ) ((b2 / P.sqrt (bk * (1 - c))) * θ) : Vec 3 R) i = a i * θ') ∧
+    ∃ (a : Vec 3 R) (θ' : R), θ' = θ ∧ (∀ i, (v3 ((b0 / P.sqrt (bk * (1 - c))) * θ) ((b1 / P.sqrt (bk * (1 - c))) * θ) ((b2 / P.sqrt (bk * (1 - c))) * θ) : Vec 3 R) i = a i * θ') ∧
         a 0 ^ 2 + a 1 ^ 2 + a 2 ^ 2 = 1 ∧ rodM a (P.cos θ') (P.sin θ') = M := by
   have hpp : 0 < 1 + c := by nlinarith [mul_pos hs hs]
   have hc1 : 0 < 1 - c := by linarith
@@ -254,7 +255,8 @@ theorem exp_log_SO3_obtuse (hS : P.Sqrt) (hA : Atan2Law P) (m : Mat 3 3 R) (hm :
     (h : Gen.trlog_R_twist P m = .ok L)
     (hc : (m 0 0 + m 1 1 + m 2 2 - 1) / 2 < 0)
     (hs : P.sqrt ((m 2 1 - m 1 2) / 2 * ((m 2 1 - m 1 2) / 2) + (m 0 2 - m 2 0) / 2 * ((m 0 2 - m 2 0) / 2) + (m 1 0 - m 0 1) / 2 * ((m 1 0 - m 0 1) / 2)) > 0) :
-    L = v3 0 0 0 ∨ ∃ (a : Vec 3 R) (θ : R), (∀ i, L i = a i * θ) ∧ a 0 ^ 2 + a 1 ^ 2 + a 2 ^ 2 = 1 ∧
+    L = v3 0 0 0 ∨ ∃ (a : Vec 3 R) (θ : R), θ = P.atan2 (P.sqrt ((m 2 1 - m 1 2) / 2 * ((m 2 1 - m 1 2) / 2) + (m 0 2 - m 2 0) / 2 * ((m 0 2 - m 2 0) / 2) + (m 1 0 - m 0 1) / 2 * ((m 1 0 - m 0 1) / 2))) ((m 0 0 + m 1 1 + m 2 2 - 1) / 2) ∧
+        (∀ i, L i = a i * θ) ∧ a 0 ^ 2 + a 1 ^ 2 + a 2 ^ 2 = 1 ∧
         rodM a (P.cos θ) (P.sin θ) = m := by
   have hss := hS.mul_self _ (sq3_nonneg' ((m 2 1 - m 1 2) / 2) ((m 0 2 - m 2 0) / 2) ((m 1 0 - m 0 1) / 2))
   have hsc := sin_sq_add_cos_sq hm
